@@ -149,6 +149,7 @@ func (P) Gen(rng *sim.Rng, tier string) *harness.Case {
 			k = rng.Range(5, 7) // thorough: now and then a larger crowd
 		}
 		c.Callers = make([][]harness.Op, k)
+		var duels [][2]int
 		for i := range c.Callers {
 			c.Callers[i] = gen(rng.Range(3, 10), false)
 			// Exit of an entry that another caller owns (and may be exiting or tracing on at the same moment)
@@ -156,10 +157,28 @@ func (P) Gen(rng *sim.Rng, tier string) *harness.Case {
 				at := rng.Intn(len(c.Callers[i]) + 1)
 				x := harness.Op{K: "xexit", R: rng.Intn(k), E: rng.Intn(6)}
 				c.Callers[i] = append(c.Callers[i][:at], append([]harness.Op{x}, c.Callers[i][at:]...)...)
+				duels = append(duels, [2]int{(i + 1 + x.R%k) % k, x.E})
 			}
+		}
+		// the owner keeps tracing errors on an entry that another caller exits: a burst of
+		// TraceError calls somewhere in the owner's list widens the overlap
+		for _, d := range duels {
+			if d[0] >= len(c.Callers) || !rng.Chance(0.6) {
+				continue
+			}
+			l := c.Callers[d[0]]
+			at := rng.Intn(len(l) + 1)
+			burst := make([]harness.Op, rng.Range(2, 5))
+			for j := range burst {
+				burst[j] = harness.Op{K: "trace", E: d[1]}
+			}
+			c.Callers[d[0]] = append(l[:at:at], append(burst, l[at:]...)...)
 		}
 		c.Sched = harness.GenSched(rng, nil, 500*k)
 		c.Sched.MaxSteps = 100000
+		// half of the runs: a scheduling point after every atomic load as well, so that
+		// a check (exited? first use?) and the plain write it guards can be separated
+		c.Sched.PostLoad = rng.Chance(0.5)
 	} else {
 		c.Callers = [][]harness.Op{gen(rng.Range(10, 60), true)}
 	}
